@@ -209,7 +209,7 @@ def run(ctx):
                        'TLC part: integer matrices with |entries| <= 3, r <= 3; float matrices only through the mirror',
                        'logged |B[i,j]| / F[i] compared at 1e-4 (TLC) resp. 1e-6 (mirror)']
     quick = ctx.tier == 'quick'
-    for cfg in (['MC_Maxvol_q.cfg', 'MC_Maxvol_rq.cfg'] if quick else ['MC_Maxvol_q.cfg', 'MC_Maxvol_r.cfg', 'MC_Maxvol_t.cfg']):
+    for cfg in (['MC_Maxvol_q.cfg', 'MC_Maxvol_rq.cfg'] if quick else ['MC_Maxvol_q.cfg', 'MC_Maxvol_r.cfg', 'MC_Maxvol_t.cfg', 'MC_Maxvol_t2.cfg']):
         res = tlc.run('MC_Maxvol', cfg=cfg, workers=16, timeout=3400)
         ctx.add_tlc(res, 'determinant model, exhaustive: ' + cfg)
     rng = np.random.default_rng(ctx.seed)
